@@ -129,6 +129,21 @@ def opRoll (kv : KV) : Option String := do
   let rows := (codes.zip (vals.zip sel)).map fun (c, v, s) => (⟨c, v, s⟩ : CRow)
   pure s!"model={showRCells (rolling k op w minp rows)} spec={showRCells (specRolling k op w minp rows)}"
 
+def opEma (kv : KV) : Option String := do
+  let beta ← parseRat (← get kv "beta")
+  let codes ← parseIntList (← get kv "codes")
+  let xs ← (splitComma (← get kv "vals")).mapM fun t => if t == "_" then some none else (parseRat t).map some
+  if codes.length ≠ xs.length then none
+  let rows := codes.zip xs
+  let model := emaGrouped beta rows
+  -- specification: per row, the closed form over the history of the row's own group
+  let spec := (List.range rows.length).map fun i =>
+    match rows[i]? with
+    | none => none
+    | some r => if r.1 < 0 then none else
+        some (specEma beta (((rows.take (i + 1)).filter (fun q => q.1 = r.1)).map (·.2)))
+  pure s!"model={showEma model} spec={showEma spec}"
+
 def opScalar (kv : KV) : Option String := do
   let fn ← get kv "fn"
   let k ← parseKind (← get kv "kind")
@@ -152,6 +167,7 @@ def step (line : String) : String :=
       | "nth" => opNth kv
       | "cum" => opCum kv
       | "roll" => opRoll kv
+      | "ema" => opEma kv
       | "firstlast" => opFirstLast kv
       | "mono" => opMono kv
       | _ => none
